@@ -519,7 +519,7 @@ def main():
             with open(rp, "w") as fh:
                 json.dump({"property": pid, "obligation": "bounded-standin:" + standin.get("name", "?"), "backend": "native-bounded",
                            "verifier_output": [frontend_failed[-3000:]], "input": v.get("input"), "real": v.get("real"),
-                           "expected": v.get("expected"), "reproduced": True,
+                           "expected": v.get("expected"), "reproduced": True, "found_by": standin.get("cmd"), "seed": seed,
                            "note": "Verus could not ingest the edited code; violation found and replayed by the bounded stand-in"}, fh, indent=1)
             print("VIOLATION property=%s replay=%s obligation=bounded-standin (verus undecided: front-end error)" % (pid, rp))
             sys.exit(1)
@@ -614,6 +614,7 @@ def main():
                "input": cex.get("input") if cex else None,
                "real": cex.get("real") if cex else None, "expected": cex.get("expected") if cex else None,
                "reproduced": bool(cex and cex.get("reproduced")),
+               "found_by": cex.get("found_by") if cex else None, "bound": cex.get("bound") if cex else None, "seed": seed,
                "how_to_replay": "./check %s --replay %s" % (pid, rp)}
         with open(rp, "w") as fh:
             json.dump(rec, fh, indent=1)
